@@ -71,6 +71,7 @@ func (net *vcNet) syncTail(w *vcWriter, run int, in *vcInput) {
 		w.emit(map[string]interface{}{"ev": "GST", "run": run, "rounds": gstRounds, "bound": net.bound})
 	}
 	lastOffer := map[string]string{}
+	claimed := map[string]bool{}
 	byzBudget := 12
 	steps := 0
 	limit := 4000
@@ -133,17 +134,52 @@ func (net *vcNet) syncTail(w *vcWriter, run int, in *vcInput) {
 					}
 				}
 			}
+			// majority claims (VoteSetMaj23): whoever holds +2/3 for a block tells the others, which
+			// makes them record conflicting votes for that block too
+			for _, m := range net.heldClaims() {
+				if m.Src != nn {
+					key := nn + "<-" + vcKey(m)
+					if !claimed[key] {
+						claimed[key] = true
+						if net.step(w, run, vcStep{Name: "Deliver", N: nn, M: m}) {
+							steps++
+							progressed = true
+						}
+					}
+				}
+			}
 			// votes the node does not hold yet
 			for _, m := range net.heldVotes() {
 				if m.Src == nn {
 					continue
 				}
 				vs := n.cs.Votes.Prevotes(int32(m.R))
+				ct := "claim_prevote"
 				if m.T == "precommit" {
 					vs = n.cs.Votes.Precommits(int32(m.R))
+					ct = "claim_precommit"
 				}
-				if vs == nil || vs.GetByIndex(net.index[m.Src]) == nil {
+				if vs == nil {
 					offer(m)
+					continue
+				}
+				bid, okb := net.blockID(m.V)
+				if !okb {
+					continue
+				}
+				if ba := vs.BitArrayByBlockID(bid); ba != nil && ba.GetIndex(int(net.index[m.Src])) {
+					continue // already recorded for that block
+				}
+				if vs.GetByIndex(net.index[m.Src]) == nil {
+					offer(m)
+					continue
+				}
+				// a different vote of that validator is held: only a claimed block is accepted
+				for _, cn := range net.corr {
+					if claimed[nn+"<-"+vcKey(vcMsg{T: ct, Src: cn, R: m.R, V: m.V, Pol: -2})] {
+						offer(m)
+						break
+					}
 				}
 			}
 		}
@@ -266,6 +302,34 @@ func (net *vcNet) heldBlocks() []string {
 	return out
 }
 
+// +2/3 claims correct nodes can make: a majority in one of their vote sets, or their commit
+func (net *vcNet) heldClaims() []vcMsg {
+	out := []vcMsg{}
+	for _, nn := range net.corr {
+		cs := net.nodes[nn].cs
+		if cs.Height != 1 {
+			if sc := cs.blockStore.LoadSeenCommit(1); sc != nil {
+				out = append(out, vcMsg{T: "claim_precommit", Src: nn, R: int(sc.Round), V: net.nameOfBlockID(sc.BlockID), Pol: -2})
+			}
+			continue
+		}
+		for r := 0; r <= net.maxRound; r++ {
+			if vs := cs.Votes.Prevotes(int32(r)); vs != nil {
+				if bid, ok := vs.TwoThirdsMajority(); ok {
+					out = append(out, vcMsg{T: "claim_prevote", Src: nn, R: r, V: net.nameOfBlockID(bid), Pol: -2})
+				}
+			}
+			if vs := cs.Votes.Precommits(int32(r)); vs != nil {
+				if bid, ok := vs.TwoThirdsMajority(); ok {
+					out = append(out, vcMsg{T: "claim_precommit", Src: nn, R: r, V: net.nameOfBlockID(bid), Pol: -2})
+				}
+			}
+		}
+	}
+	sort.Slice(out, func(i, j int) bool { return vcKey(out[i]) < vcKey(out[j]) })
+	return out
+}
+
 // every vote some correct node holds in its vote sets for height 1 (its own, other correct
 // nodes' and the faulty validators')
 func (net *vcNet) heldVotes() []vcMsg {
@@ -308,6 +372,20 @@ func (net *vcNet) heldVotes() []vcMsg {
 						if !seen[vcKey(m)] {
 							seen[vcKey(m)] = true
 							out = append(out, m)
+						}
+					}
+				}
+				for bn := range net.blocks {
+					bid, _ := net.blockID(bn)
+					if ba := vs.BitArrayByBlockID(bid); ba != nil {
+						for _, name := range net.names {
+							if ba.GetIndex(int(net.index[name])) {
+								m := vcMsg{T: t, Src: name, R: r, V: bn, Pol: -2}
+								if !seen[vcKey(m)] {
+									seen[vcKey(m)] = true
+									out = append(out, m)
+								}
+							}
 						}
 					}
 				}
